@@ -47,6 +47,72 @@ static void domain_case(uint32_t S, uint32_t L, int mode, int announce, const in
     mc_case_end(outcome_hash(r), 1, smp);
 }
 
+/* ---- cfg 3: the same dialogues after an earlier transfer that the client completed or abandoned (client abort after k requests) ---- */
+static uint8_t PAY2[64], UPB[SDO_DS2 + 16];
+static const char *const PRE_NAME[] = { "none", "segmented download", "block download", "segmented upload", "block upload (block size 3)" };
+static void prehistory(int kind, int k, uint32_t S)
+{
+    uint32_t n = S < 40 ? S : 40, len = 0, ann = 0;
+    if (kind == 0) return;
+    cl_budget = k; cl_stopped = 0;
+    if (kind == 1) (void)cl_seg_dl(0, 0x2012, 0, PAY2, n, 1);
+    else if (kind == 2) (void)cl_blk_dl(0, 0x2012, 0, PAY2, n, 1, 0, 0);
+    else if (kind == 3) (void)cl_upload(0, 0x2012, 0, UPB, sizeof UPB, &len, &ann);
+    else (void)cl_blk_ul(0, 0x2012, 0, 3, UPB, sizeof UPB, &len, &ann, 0, 0, 0, 0);
+    cl_budget = -1;
+    if (cl_stopped) cl_client_abort(0);
+    cl_stopped = 0;
+}
+static void history_case(int kind, int k, uint32_t S, uint32_t L, int mode, int announce, int lose0, int *txcount, int *applicable)
+{
+    static uint8_t before[SDO_DS2]; int r, lose[1] = { lose0 }; char smp[200];
+    w_restore(snap0); w_obs_clear();
+    set_dom_size(S);
+    prehistory(kind, k, S);
+    if (OBS.fatal) mc_fail("safety:fatal-error callback invoked", "prehistory");
+    memcpy(before, DomB, SDO_DS2);
+    w_obs_clear();
+    cl_trace = 0; cl_frames = 0; cl_abort = 0;
+    if (mode == 0) r = cl_exp_dl(0, 0x2012, 0, PAY, (int)L, 1);
+    else if (mode == 1) r = cl_exp_dl(0, 0x2012, 0, PAY, (int)L, 0);
+    else if (mode == 2) r = cl_seg_dl(0, 0x2012, 0, PAY, L, announce);
+    else r = cl_blk_dl(0, 0x2012, 0, PAY, L, announce, lose, lose0 >= 0 ? 1 : 0);
+    if (txcount) *txcount = cl_blk_tx_count;
+    if (r == -1) { if (applicable) *applicable = 0; mc_case_end(0, 0, 0); return; }
+    if (applicable) *applicable = 1;
+    mc_log("  after %s (k=%d): S=%u L=%u mode=%d announce=%d -> %s abort=%08X\n", PRE_NAME[kind], k, S, L, mode, announce, r == CL_OK ? "confirmed" : r == CL_ABORT ? "aborted" : "protocol error", cl_abort);
+    if (r == CL_PROTOCOL) mc_fail("c02-protocol", "after %s (k=%d): S=%u L=%u mode=%d announce=%d: %s", PRE_NAME[kind], k, S, L, mode, announce, cl_err);
+    else if (r == CL_OK) {
+        if (mode != 1 && memcmp(DomB, PAY, L) != 0) { uint32_t i = 0; while (DomB[i] == PAY[i]) i++; mc_fail("c02-wrong-bytes", "after %s (k=%d): confirmed download S=%u L=%u mode=%d announce=%d: object byte %u is %02X, sent %02X", PRE_NAME[kind], k, S, L, mode, announce, i, DomB[i], PAY[i]); }
+        else for (uint32_t i = (mode == 1 ? S : L); i < SDO_DS2; i++) if (DomB[i] != before[i]) { mc_fail("c02-beyond-length", "after %s (k=%d): confirmed download S=%u L=%u mode=%d: byte %u beyond the transmitted length changed to %02X", PRE_NAME[kind], k, S, L, mode, i, DomB[i]); break; }
+    } else if (L == S && !(mode == 1 && S > 4)) mc_fail("c02-refused", "after %s (k=%d): conforming download of %u bytes to a %u-byte domain refused with %08X (mode %d, announce %d)", PRE_NAME[kind], k, L, S, cl_abort, mode, announce);
+    if (OBS.fatal) mc_fail("safety:fatal-error callback invoked", "S=%u L=%u", S, L);
+    snprintf(smp, sizeof smp, "after %s%s k=%d: domain S=%u L=%u mode=%s announce=%d loss=%d -> %s", PRE_NAME[kind], k < 0 ? " (completed)" : " (abandoned)", k, S, L, mode == 0 ? "exp(s=1)" : mode == 1 ? "exp(s=0)" : mode == 2 ? "seg" : "blk", announce, lose0, r == CL_OK ? "confirmed" : "aborted");
+    mc_case_end(outcome_hash(r) ^ ((uint64_t)kind << 56), 1, smp);
+}
+static void run_history(int tier)
+{
+    static const int qs[] = { 1, 4, 5, 7, 8, 14, 15, 21, 35, 64, 890 };
+    int *sizes = tier ? all_sizes : (int *)qs; int ns = tier ? n_all : (int)(sizeof qs / sizeof qs[0]);
+    int kmax = tier ? 7 : 4;
+    for (int kind = 1; kind <= 4; kind++) for (int k = -1; k <= kmax; k++) {
+        if (k == 0) continue;
+        for (int si = 0; si < ns && !mc_deadline_hit(); si++) {
+            uint32_t S = (uint32_t)sizes[si];
+            if (tier && S > 900) continue;
+            for (uint32_t L = S > 1 ? S - 1 : S; L <= S; L++) for (int mode = 0; mode < 4; mode++) for (int announce = 0; announce < 2; announce++) {
+                if (mode <= 1 && (L > 4 || announce)) continue;
+                if (mode == 1 && L != S) continue;
+                int tx = 0, app = 1;
+                mc_case(9, 3, kind, k, (int)S, (int)L, mode, announce, -1);
+                history_case(kind, k, S, L, mode, announce, -1, &tx, &app);
+                if (mode != 3 || S > 100) continue;
+                for (int a = 0; a < tx && !mc_deadline_hit(); a++) { mc_case(9, 3, kind, k, (int)S, (int)L, mode, announce, a); history_case(kind, k, S, L, mode, announce, a, 0, 0); }
+            }
+        }
+    }
+}
+
 static void run_domains(int tier)
 {
     int *sizes = tier ? all_sizes : quick_sizes; int ns = tier ? n_all : (int)(sizeof quick_sizes / sizeof quick_sizes[0]);
@@ -85,7 +151,7 @@ static void run_domains(int tier)
 }
 
 /* basic objects */
-static const struct { int o; uint16_t idx; uint8_t sub; } BASIC[] = { {O_U8, 0x2000, 0}, {O_U16, 0x2001, 0}, {O_U32, 0x2002, 0}, {O_U32D, 0x2003, 0}, {O_NID, 0x2006, 0}, {O_SUB1, 0x2030, 1}, {O_DOM3, 0x2010, 0} };
+static const struct { int o; uint16_t idx; uint8_t sub; } BASIC[] = { {O_U8, 0x2000, 0}, {O_U16, 0x2001, 0}, {O_U32, 0x2002, 0}, {O_U32D, 0x2003, 0}, {O_NID, 0x2006, 0}, {O_SUB1, 0xA030, 1}, {O_DOM3, 0x2010, 0} };
 static void basic_case(int b, uint32_t L, int mode, int announce)
 {
     int r, o = BASIC[b].o; uint32_t S = OBJ[o].size; uint8_t v[8]; char smp[160];
@@ -187,6 +253,7 @@ static void setup(void)
     sdo_world_build(0);
     sdo_model_init();
     for (unsigned i = 0; i < sizeof PAY; i++) PAY[i] = (uint8_t)((i * 7 + 13) | 1);
+    for (unsigned i = 0; i < sizeof PAY2; i++) PAY2[i] = (uint8_t)(0xE0 ^ (i * 3));
     if (!snap0) snap0 = malloc(w_snap_size());
     w_save(snap0);
     n_all = 0;
@@ -202,6 +269,7 @@ static void run_cfg(int cfg, int tier)
     setup();
     if (cfg == 0) run_domains(tier);
     else if (cfg == 1) run_basic();
+    else if (cfg == 3) run_history(tier);
 #if CO_SSDO_N > 1
     else run_two(tier);
 #endif
@@ -216,11 +284,12 @@ static void run_case(const int *c, int n)
         int lose[2] = { c[6], n >= 8 ? c[7] : -1 }; int nl = (c[6] >= 0) + (n >= 8 && c[7] >= 0);
         domain_case((uint32_t)c[2], (uint32_t)c[3], c[4], c[5], lose, nl, 0, 0);
     } else if (c[1] == 1 && n >= 6) basic_case(c[2], (uint32_t)c[3], c[4], c[5]);
+    else if (c[1] == 3 && n >= 9) history_case(c[2], c[3], (uint32_t)c[4], (uint32_t)c[5], c[6], c[7], c[8], 0, 0);
 #if CO_SSDO_N > 1
     else if (c[1] == 2 && n >= 9) two_server_case(c[2], (uint32_t)c[3], c[4], c + 5);
 #endif
 }
 
-static const char *cfg_name(int c) { return c == 0 ? "domains" : c == 1 ? "basic objects" : "two servers"; }
-static const mc_enum E = { "C02", "c02", 3, cfg_name, run_cfg, run_case };
+static const char *cfg_name(int c) { return c == 0 ? "domains" : c == 1 ? "basic objects" : c == 2 ? "two servers" : "after an earlier completed or abandoned transfer"; }
+static const mc_enum E = { "C02", "c02", 4, cfg_name, run_cfg, run_case };
 int main(int argc, char **argv) { return mc_enum_main(argc, argv, &E); }
